@@ -608,3 +608,113 @@ class Lexer:'''), (P, '''raise ParseError(f"unknown token {token}")''', '''raise
 benign("c02-extra-safe-decode", ["C02"], [(P, '''        if ttype in ["number", "tag"]:
             return self.__curcommand.check_next_arg(ttype, tvalue.decode("ascii"))''', '''        if ttype in ["number", "tag"]:
             return self.__curcommand.check_next_arg(ttype, tvalue.decode("utf-8"))''')])
+
+# --------------------------------------------------------------------------- C07
+seeded("e1-body-extension-dropped", ["C07", "C01"], {"C07": "E1", "C01": "T1"}, [(C, '''    extension = "body"
+
+    def args_as_tuple(self):
+        """Return arguments as a list."""
+        result = ("body",)''', '''    def args_as_tuple(self):
+        """Return arguments as a list."""
+        result = ("body",)''')], "no negative test for body")
+seeded("e1-create-unbound", ["C07", "C01"], {"C07": "E1", "C01": "T1"}, [(C, '''            "values": [":create"],
+            "required": False,
+            "extension": "mailbox",''', '''            "values": [":create"],
+            "required": False,''')])
+seeded("e1-regex-moved-to-values", ["C07", "C01"], {"C07": "E1", "C01": "T1"}, [(C, '''    "values": [":is", ":contains", ":matches"],
+    "extension_values": {
+        ":count": "relational",
+        ":value": "relational",
+        ":regex": "regex",
+    },''', '''    "values": [":is", ":contains", ":matches", ":regex"],
+    "extension_values": {
+        ":count": "relational",
+        ":value": "relational",
+    },''')])
+seeded("e1-seconds-wrong-extension", ["C07", "C01"], {"C07": "E1", "C01": "T1"}, [(C, '''"extension_values": {":seconds": "vacation-seconds"},''', '''"extension_values": {":seconds": "vacation"},''')])
+seeded("e2-gate-after-return", ["C07"], "E2", [(C, '''    condition = (
+        checkexists
+        and gl[cname].extension
+        and gl[cname].extension not in RequireCommand.loaded_extensions
+    )
+    if condition:
+        raise ExtensionNotLoaded(gl[cname].extension)
+    return gl[cname](parent)''', '''    if parent is not None:
+        return gl[cname](parent)
+    condition = (
+        checkexists
+        and gl[cname].extension
+        and gl[cname].extension not in RequireCommand.loaded_extensions
+    )
+    if condition:
+        raise ExtensionNotLoaded(gl[cname].extension)
+    return gl[cname](parent)''')], "nested commands and tests skip the gate; the negative tests use top-level commands")
+seeded("e2-gate-or", ["C07"], "E2", [(C, '''        and gl[cname].extension not in RequireCommand.loaded_extensions
+    )
+    if condition:
+        raise ExtensionNotLoaded(gl[cname].extension)''', '''        and gl[cname].extension not in RequireCommand.loaded_extensions
+        and len(RequireCommand.loaded_extensions) == 0
+    )
+    if condition:
+        raise ExtensionNotLoaded(gl[cname].extension)''')], "any require opens every extension")
+seeded("e3-store-before-gate", ["C07"], "E3", [(C, '''            if condition:
+                ext = curarg.get("extension")
+                condition = (
+                    check_extension
+                    and ext
+                    and ext not in RequireCommand.loaded_extensions
+                )
+                if condition:
+                    raise ExtensionNotLoaded(ext)''', '''            if condition:
+                ext = curarg.get("extension")
+                condition = (
+                    check_extension
+                    and ext
+                    and self.nextargpos == 0
+                    and ext not in RequireCommand.loaded_extensions
+                )
+                if condition:
+                    raise ExtensionNotLoaded(ext)''')], "only a tag in first position is gated")
+seeded("e4-value-gate-dropped", ["C07"], "E4", [(C, '''                condition = (
+                    check_extension
+                    and extension not in RequireCommand.loaded_extensions
+                )
+                if condition:
+                    raise ExtensionNotLoaded(extension)
+                return True''', '''                return True''')])
+seeded("e4-optional-branch-flag-lost", ["C07"], "E4", [(C, '''            condition: bool = atype in curarg["type"] and self.__is_valid_value_for_arg(
+                curarg, avalue, check_extension
+            )''', '''            condition: bool = atype in curarg["type"] and self.__is_valid_value_for_arg(
+                curarg, avalue, False
+            )''')], "match types on optional slots are never gated")
+seeded("e5-parser-disables-check", ["C07"], "E5", [(P, '''test = get_command_instance(tvalue.decode("ascii"), self.__curcommand)''', '''test = get_command_instance(tvalue.decode("ascii"), self.__curcommand, False)''')], "tests (envelope, body, date...) need no require")
+seeded("e5-parser-arg-check-off", ["C07"], "E5", [(P, '''return self.__curcommand.check_next_arg(ttype, tvalue.decode("ascii"))''', '''return self.__curcommand.check_next_arg(ttype, tvalue.decode("ascii"), check_extension=ttype == "number")''')])
+seeded("e6-registry-prefilled", ["C07", "C13"], {"C07": "E6", "C13": "H3"}, [(P, "        RequireCommand.loaded_extensions = []\n", '        RequireCommand.loaded_extensions = ["fileinto"]\n')])
+seeded("e6-lookup-loads-extension", ["C07", "C13"], {"C07": "E6", "C13": "H1"}, [(C, '''    if condition:
+        raise ExtensionNotLoaded(gl[cname].extension)
+    return gl[cname](parent)''', '''    if condition:
+        raise ExtensionNotLoaded(gl[cname].extension)
+    if gl[cname].extension and not checkexists:
+        RequireCommand.loaded_extensions.append(gl[cname].extension)
+    return gl[cname](parent)''')], "factory use opens the extension for later parses")
+seeded("e7-message-changed", ["C07"], "E7", [(C, '''return "extension '{}' not loaded".format(self.name)''', '''return "extension {} not loaded".format(self.name)''')])
+seeded("e7-raise-names-command", ["C07"], "E7", [(C, '''    if condition:
+        raise ExtensionNotLoaded(gl[cname].extension)''', '''    if condition:
+        raise ExtensionNotLoaded(name)''')])
+benign("c07-gate-early-return-form", ["C07"], [(C, '''    condition = (
+        checkexists
+        and gl[cname].extension
+        and gl[cname].extension not in RequireCommand.loaded_extensions
+    )
+    if condition:
+        raise ExtensionNotLoaded(gl[cname].extension)
+    return gl[cname](parent)''', '''    if checkexists and gl[cname].extension:
+        if gl[cname].extension not in RequireCommand.loaded_extensions:
+            raise ExtensionNotLoaded(gl[cname].extension)
+    return gl[cname](parent)''')])
+benign("c07-new-extension-command", ["C07", "C01", "C02"], [(C, '''class DiscardCommand(ActionCommand):''', '''class EreportCommand(ActionCommand):
+    extension = "ereport"
+    args_definition = [{"name": "text", "type": ["string"], "required": True}]
+
+
+class DiscardCommand(ActionCommand):''')])
